@@ -14,15 +14,16 @@ VARIABLES sel,     \* [kind |-> "slice", a, b, c, n] or [kind |-> "sample", N, n
 
 vars == <<sel, index, rem, out, done>>
 
-Sels == [kind : {"slice"}, a : Opt(-MaxN..MaxN), b : Opt(-MaxN..MaxN), c : Opt(1..MaxN), n : 0..MaxN]
+Sels == [kind : {"slice"}, a : Opt(-MaxN..MaxN), b : Opt(-MaxN..MaxN), c : Opt(Steps), n : 0..MaxN]
         \cup [kind : {"sample"}, N : 1..(2 * MaxN), n : 0..(2 * MaxN)]
 
+Down(s) == s.c # NoneV /\ s.c < 0          \* range(*slice.indices(n)) counts down
 Init == /\ sel \in Sels
-        /\ index = IF sel.kind = "slice" THEN PyStart(sel.a, sel.n) ELSE 0
+        /\ index = IF sel.kind = "slice" THEN (IF Down(sel) THEN ClampNeg(sel.a, sel.n, sel.n - 1) ELSE PyStart(sel.a, sel.n)) ELSE 0
         /\ rem = 0 /\ out = <<>> /\ done = FALSE
 
 SliceStep == /\ sel.kind = "slice" /\ ~done
-             /\ IF index < PyStop(sel.b, sel.n)
+             /\ IF (IF Down(sel) THEN index > ClampNeg(sel.b, sel.n, -1) ELSE index < PyStop(sel.b, sel.n))
                 THEN /\ out' = Append(out, index)
                      /\ index' = index + PyStep(sel.c)
                      /\ UNCHANGED done
@@ -49,11 +50,11 @@ SampleDiffuse == /\ sel.kind = "sample" /\ ~done /\ sel.N < sel.n
 Next == SliceStep \/ SampleAll \/ SampleDiffuse
 Spec == Init /\ [][Next]_vars
 
-TypeOK == /\ sel \in Sels /\ index \in 0..(4 * MaxN) /\ rem \in 0..(2 * MaxN)
+TypeOK == /\ sel \in Sels /\ index \in (-2 * MaxN - 1)..(4 * MaxN) /\ rem \in 0..(2 * MaxN)
           /\ out \in Seq(0..(2 * MaxN)) /\ done \in BOOLEAN
 
 (* Refinement: at termination the design produced exactly the abstract result *)
-SliceRefines == (done /\ sel.kind = "slice") => out = PySlice(sel.a, sel.b, sel.c, sel.n)
+SliceRefines == (done /\ sel.kind = "slice") => out = PySliceAny(sel.a, sel.b, sel.c, sel.n)
 SampleRefines == (done /\ sel.kind = "sample") => SampleAbs(sel.N, sel.n, out)
 (* Inductive invariant of the error diffusion: after j yields index*N + rem = j*n, 0 <= rem < N *)
 DiffusionInv == (sel.kind = "sample" /\ sel.N < sel.n) =>
@@ -61,8 +62,8 @@ DiffusionInv == (sel.kind = "sample" /\ sel.N < sel.n) =>
                    /\ rem >= 0 /\ rem < sel.N
 (* every yielded prefix is already a prefix of the final answer *)
 SlicePrefix == sel.kind = "slice" =>
-                 \A i \in 1..Len(out) : i <= PyCount(sel.a, sel.b, sel.c, sel.n)
-                                        /\ out[i] = PySlice(sel.a, sel.b, sel.c, sel.n)[i]
+                 \A i \in 1..Len(out) : i <= PyCountAny(sel.a, sel.b, sel.c, sel.n)
+                                        /\ out[i] = PySliceAny(sel.a, sel.b, sel.c, sel.n)[i]
 (* a Python slice really is the elements at s, s+st, ... below e and inside the sequence *)
 SliceInRange == sel.kind = "slice" => \A i \in 1..Len(out) : out[i] >= 0 /\ out[i] < sel.n
 
